@@ -50,6 +50,7 @@ def chunk_specs(draw, thorough):
         ch["width"] = draw(st.sampled_from([60, 60, 50, 13]))
         ch["cons"] = draw(st.booleans())
         ch["counts"] = draw(st.booleans())
+        ch["clu_group"] = draw(st.sampled_from([0, 0, 0, 10, 3]))      # row text padded with blanks between groups of residues
         ch["header"] = draw(st.sampled_from(["CLUSTAL W (1.83) multiple sequence alignment",
                                              "CLUSTAL O(1.2.4) multiple sequence alignment",
                                              "MUSCLE (3.7) multiple sequence alignment"]))
